@@ -147,8 +147,9 @@ PROPS = {
     "C05": {
         "lean": ["Stackage.Props.C05"],
         "streams": [{"name": "genfuncs", "quick": 600, "thorough": 12000}, {"name": "eqpair", "quick": 3000, "thorough": 60000}, {"name": "equnit", "quick": 1500, "thorough": 30000},
-                    {"name": "eqseqs", "quick": 800, "thorough": 16000}],
-        "rule": "eqpair: random trees (every kind, capacity, case-folding, nested stacks / conditions in native, alias, alias-with-String and pointer form, "
+                    {"name": "eqseqs", "quick": 800, "thorough": 16000}, {"name": "eqmut", "quick": 1200, "thorough": 24000}],
+        "rule": "eqmut: a tree and an equal copy are compared (twice, both ways), then the copy is changed IN PLACE below its top level through the handle of a nested "
+                "Stack / Condition (Push, Replace, SetKeyword) and they are compared again: the verdict is about what they hold now. eqpair: random trees (every kind, capacity, case-folding, nested stacks / conditions in native, alias, alias-with-String and pointer form, "
                 "operators incl. none and user-defined) whose leaves are drawn type-directed from ~70 Go types ([]int, [3]int, []string, []*int incl. nil "
                 "elements, map[string]int, structs with exported / embedded / private fields, **int, typed nils, funcs, chans, NaN, declared scalar types, "
                 "[]any, *any, uintptr ...); each tree is paired with an independently rebuilt copy (30%), with itself (same pointer) or with a copy carrying "
